@@ -56,13 +56,16 @@ class SrcWorld(World):
             f.write(st.src)
         with open(EMPTY_PATH, "wb") as f:
             pass
-        st.S = core.make_source(c)
+        st.S = core.make_source(c, vfs=self.make_vfs())
         self.init_model(st)
         if self.cfg.get("autoput", self.autoput):
             ok = st.S.h.put_request(self.put_req("mdonly" if c["md_only"] else "valid"))
             assert ok
             st.nput = 1
         return st
+
+    def make_vfs(self):
+        return None  # the native filestore
 
     def init_model(self, st):
         pass
